@@ -181,15 +181,15 @@ def tlc_trace(module, cfg, events_path, timeout=1800, xmx="4g", consts=None):
         if not line.startswith('"'):
             continue
         body = line[1:-1] if line.endswith('"') else line[1:]
-        parts = body.split("|")
+        parts = body.split(";;;")
         if parts[0] == "MISMATCH" and len(parts) >= 6:
             res["mismatches"].append({"l": int(parts[1]), "kind": parts[2], "sig": parts[3],
-                                      "expected": parts[4][:400], "observed": "|".join(parts[5:])[:400]})
+                                      "expected": parts[4][:400], "observed": ";;;".join(parts[5:])[:400]})
         elif parts[0] == "DRIFT" and len(parts) >= 6:
             res["drifts"].append({"l": int(parts[1]), "kind": parts[2], "sig": parts[3],
                                   "expected": parts[4][:200], "observed": parts[5][:200]})
         elif parts[0] == "BADCASE":
-            res["badcases"].append({"l": int(parts[1]), "why": "|".join(parts[2:])})
+            res["badcases"].append({"l": int(parts[1]), "why": ";;;".join(parts[2:])})
         elif parts[0] == "TAG" and len(parts) >= 3:
             res["tags"].append((int(parts[1]), parts[2]))
         elif parts[0] == "REJECTED":
